@@ -305,18 +305,16 @@ class LossyBlockUploadServer:
         n = len(self.value)
         if self.exhausted or self.seq >= self.blksize or self.base + 7 * self.seq >= n:
             return None
-        k = rt.choose_int("lost-run", 0, 127)
+        k = 0
+        if rt.choose_bool("segments-lost"):
+            k = rt.choose_int("lost-run", 1, 127)
         if self.seq + k >= self.blksize or self.base + 7 * (self.seq + k) >= n:
             self.exhausted = True
             return None
         self.seq = self.seq + k + 1
         start = self.base + 7 * (self.seq - 1)
-        chunk = self.value[start:start + 7]
         last = start + 7 >= n
-        seg = bytearray(8)
-        seg[0] = self.seq | (0x80 if last else 0)
-        seg[1:1 + len(chunk)] = chunk
-        return bytes(seg)
+        return bytes([self.seq | (0x80 if last else 0)]) + rt.segment7(self.value, start)
 
     def process_ack(self):
         n = len(self.value)
